@@ -7,6 +7,10 @@ run_prop() {
   for d in seeded/$1_*/; do
     s=$(basename $d); p=${s%_*}
     alt=$(python3 -c "import json;print(json.load(open('$d/meta.json')).get('check','$p'))")
+    if [ -n "$SWEEP_ROUNDS" ]; then   # e.g. SWEEP_ROUNDS="8 9": only the seeds of those rounds
+      r=$(python3 -c "import json;print(json.load(open('$d/meta.json')).get('round',0))")
+      case " $SWEEP_ROUNDS " in *" $r "*) ;; *) continue;; esac
+    fi
     out=$(TRY_LINES=1 tools/try_patch.sh "$ROOT/$d/patch.diff" $alt 2>&1 | grep -E "exit=" | tail -1)
     echo "$s $alt $out"
   done
